@@ -58,6 +58,12 @@ import (
 //                             nor closes its side of the connection
 //   c15 wclosed <c>           wait until the server has closed the connection (end of file on the socket)
 //   c15 cping <c>             websocket ping through StreamingConn.Ping (clients n...)
+//   c15 cpause <c> / cresume <c>   the raw client stops / resumes reading from its socket
+//   c15 cpingraw <c>          websocket ping of a raw client
+//   c15 emitbig <c> <k> <v> <kb>   like emit, the message padded to <kb> KiB
+//   c15 creadopt <c> <ms>     clients m... (onet's client, no routine reads for them): one read with its own
+//                             options — ReadMessageWithOpts with a deadline <ms> ahead, or ReadMessage if 0
+//   c15 quiet <ms>            nothing happens for <ms> milliseconds
 //   c15 ping <v>              another client of the same server: a plain request (C15Ping) over a
 //                             single-use onet.Client, answered with v+1
 //
@@ -101,6 +107,8 @@ type C15Val struct {
 	Conn string
 	K    int64
 	V    int64
+	// Pad makes the message big (op emitbig)
+	Pad []byte
 }
 
 // C15Ping is a plain (non-streaming) request of the same service: other clients
@@ -276,6 +284,38 @@ type c15client struct {
 	frames chan string
 	muted  int32
 	done   chan struct{} // closed when the routine reading frames has ended
+	// gate is held by the harness while the client does not read (op cpause): the routine reading
+	// frames takes it before every read
+	gate sync.Mutex
+	// manual: clients m...: no routine reads, the harness reads frame by frame with read options (op creadopt)
+	manual bool
+}
+
+// c15frame reads the next frame of an onet client with the given read options.
+func (cl *c15client) c15frame(opts onet.StreamingReadOpts, plain bool) (string, bool) {
+	for {
+		var v C15Val
+		var err error
+		if plain {
+			err = cl.sc.ReadMessage(&v)
+		} else {
+			err = cl.sc.ReadMessageWithOpts(&v, opts)
+		}
+		if err == nil {
+			return fmt.Sprintf("data %d %d", v.K, v.V), true
+		}
+		var ce *websocket.CloseError
+		var ne net.Error
+		switch {
+		case errors.As(err, &ce):
+			return fmt.Sprintf("close %d", ce.Code), false
+		case errors.As(err, &ne) && ne.Timeout():
+			return "deadline", false
+		case strings.Contains(err.Error(), "decoding:"):
+			return "undecodable", true
+		}
+		return "eof", false
+	}
 }
 
 type c15env struct {
@@ -364,6 +404,10 @@ func (e *c15env) openOnet(name, m string) string {
 	}
 	cl := &c15client{oc: oc, sc: sc, frames: make(chan string, 4096), done: make(chan struct{})}
 	e.cl[name] = cl
+	if strings.HasPrefix(name, "m") {
+		cl.manual = true
+		return "ok"
+	}
 	go func() {
 		defer close(cl.done)
 		for {
@@ -390,7 +434,7 @@ func (e *c15env) openOnet(name, m string) string {
 }
 
 func (e *c15env) open(name, m string) string {
-	if strings.HasPrefix(name, "n") {
+	if strings.HasPrefix(name, "n") || strings.HasPrefix(name, "m") {
 		return e.openOnet(name, m)
 	}
 	path := "C15Req"
@@ -406,6 +450,10 @@ func (e *c15env) open(name, m string) string {
 	}
 	url := strings.Replace(e.base, "http://", "ws://", 1) + "/" + c15ServiceName + "/" + path
 	d := &websocket.Dialer{HandshakeTimeout: 10 * time.Second}
+	// (clients b...: big messages to a client that does not read. The kernel's buffers are left alone:
+	// a receive buffer only grows while the application reads, so the server's write blocks after the
+	// initial receive buffer plus its own send buffer, a few MiB; a deliberately small receive buffer
+	// makes the transfer itself crawl — delayed acknowledgements — and the reads run into their bound)
 	conn, _, err := d.Dial(url, nil)
 	if err != nil {
 		return "dial-error"
@@ -426,6 +474,8 @@ func (e *c15env) open(name, m string) string {
 	go func() {
 		defer close(cl.done)
 		for {
+			cl.gate.Lock()
+			cl.gate.Unlock()
 			_, b, err := conn.ReadMessage()
 			if err != nil {
 				if ce, ok := err.(*websocket.CloseError); ok {
@@ -502,11 +552,19 @@ func (e *c15env) do(tk []string) string {
 			c15cond.Wait()
 		}
 		return "ok"
-	case len(tk) == 5 && tk[1] == "emit":
+	case (len(tk) == 5 && tk[1] == "emit") || (len(tk) == 6 && tk[1] == "emitbig"):
 		k, err1 := strconv.Atoi(tk[3])
 		v, err2 := strconv.Atoi(tk[4])
 		if err1 != nil || err2 != nil {
 			return "bad-op"
+		}
+		var pad []byte
+		if tk[1] == "emitbig" {
+			kb, err := strconv.Atoi(tk[5])
+			if err != nil || kb < 0 || kb > 16<<10 {
+				return "bad-op"
+			}
+			pad = make([]byte, kb<<10)
 		}
 		st := e.svcStream(tk[2], k)
 		if st == nil || st.nilOut {
@@ -523,7 +581,7 @@ func (e *c15env) do(tk []string) string {
 			ch := st.ch
 			c15mu.Unlock()
 			select {
-			case ch <- &C15Val{Conn: string(c15tag(tk[2])), K: int64(k), V: int64(v)}:
+			case ch <- &C15Val{Conn: string(c15tag(tk[2])), K: int64(k), V: int64(v), Pad: pad}:
 			case <-time.After(c15wait):
 				r = "timeout"
 			}
@@ -595,6 +653,63 @@ func (e *c15env) do(tk []string) string {
 			cl.conn.WriteMessage(websocket.CloseMessage, websocket.FormatCloseMessage(websocket.CloseNormalClosure, "client closed"))
 		}
 		cl.conn.Close()
+		return "ok"
+	case len(tk) == 3 && (tk[1] == "cpause" || tk[1] == "cresume"):
+		cl, ok := e.cl[tk[2]]
+		if !ok || cl.conn == nil {
+			return "bad-op"
+		}
+		if tk[1] == "cpause" {
+			cl.gate.Lock()
+		} else {
+			cl.gate.Unlock()
+		}
+		return "ok"
+	case len(tk) == 3 && tk[1] == "cpingraw":
+		// a websocket ping of a raw client; the pong (if any) is consumed by the library under the
+		// client's next read
+		cl, ok := e.cl[tk[2]]
+		if !ok || cl.conn == nil {
+			return "bad-op"
+		}
+		if err := cl.conn.WriteControl(websocket.PingMessage, []byte("c15"), time.Now().Add(c15wait)); err != nil {
+			return "timeout"
+		}
+		return "ok"
+	case len(tk) == 4 && tk[1] == "creadopt":
+		// clients m...: one read through StreamingConn with its own options — <ms> > 0: ReadMessageWithOpts
+		// with a deadline that far ahead; 0: ReadMessage (no deadline; the harness bounds it through
+		// the connection it would otherwise wait on for ever)
+		cl, ok := e.cl[tk[2]]
+		ms, err := strconv.Atoi(tk[3])
+		if !ok || !cl.manual || err != nil || ms < 0 {
+			return "bad-op"
+		}
+		type res struct{ f string }
+		ch := make(chan res, 1)
+		go func() {
+			for {
+				f, again := cl.c15frame(onet.StreamingReadOpts{Deadline: time.Now().Add(time.Duration(ms) * time.Millisecond)}, ms == 0)
+				if f == "undecodable" && again {
+					continue
+				}
+				ch <- res{f}
+				return
+			}
+		}()
+		select {
+		case r := <-ch:
+			return r.f
+		case <-time.After(c15wait + time.Duration(ms)*time.Millisecond):
+			return "timeout"
+		}
+	case len(tk) == 3 && tk[1] == "quiet":
+		// nothing happens for <ms> milliseconds
+		ms, err := strconv.Atoi(tk[2])
+		if err != nil || ms < 0 || ms > 10000 {
+			return "bad-op"
+		}
+		time.Sleep(time.Duration(ms) * time.Millisecond)
 		return "ok"
 	case len(tk) == 3 && tk[1] == "cmute":
 		cl, ok := e.cl[tk[2]]
@@ -872,6 +987,13 @@ func c15oracle(cs *h.Case) {
 			continue
 		}
 		c := get(tk[2])
+		if tk[1] == "emitbig" {
+			tk = append([]string{}, tk[:5]...)
+			tk[1] = "emit"
+		}
+		if tk[1] == "creadopt" {
+			tk = []string{tk[0], "cread", tk[2]}
+		}
 		blockedOK := strings.HasPrefix(cs.Class, "corpus:blocked-emit") && tk[1] == "emit" && c.held
 		switch tk[1] {
 		case "open", "csend":
@@ -1311,6 +1433,37 @@ func (g *c15g) nilOut(c string, p int, leave string, more int, census bool) []st
 	return ops
 }
 
+// the client stops reading while the service sends big messages: the server's write loop is blocked
+// in the middle of a message when the client's pings (and a further request, whose handling tells
+// that the pings before it have been handled) arrive. Whatever the reader routine does with a ping,
+// it must not disturb the write loop (seed C15r6-A: a ping handler writing the pong itself).
+func (g *c15g) pingWhileWriting(c string, n, kb int) []string {
+	ops := []string{"c15 open " + c + " fresh", "c15 wstart " + c + " 0"}
+	ops = append(ops, g.values(c, 0, 1, 1)...)
+	ops = append(ops, "c15 cpause "+c)
+	for i := 0; i < n; i++ {
+		ops = append(ops, fmt.Sprintf("c15 emitbig %s 0 %d %d", c, g.v(), kb))
+	}
+	ops = append(ops, "c15 cpingraw "+c, "c15 csend "+c+" reuse0", "c15 wstart "+c+" 1", "c15 cpingraw "+c,
+		"c15 csend "+c+" reuse0", "c15 wstart "+c+" 2", "c15 cresume "+c)
+	for i := 0; i < n; i++ {
+		ops = append(ops, "c15 cread "+c)
+	}
+	return append(ops, "c15 svcclose "+c+" 0", "c15 cread "+c, "c15 wstop "+c+" 0")
+}
+
+// onet's client reading frame by frame with its own options per read: a read with a deadline, a quiet
+// period longer than that deadline, then reads without deadline — the deadline of one read must not
+// outlive it (seed C15r6-B)
+func (g *c15g) readOptions(c string, ms, rounds int) []string {
+	ops := []string{"c15 open " + c + " fresh", "c15 wstart " + c + " 0"}
+	for i := 0; i < rounds; i++ {
+		ops = append(ops, fmt.Sprintf("c15 emit %s 0 %d", c, g.v()), fmt.Sprintf("c15 creadopt %s %d", c, ms),
+			fmt.Sprintf("c15 quiet %d", ms+300), fmt.Sprintf("c15 emit %s 0 %d", c, g.v()), "c15 creadopt "+c+" 0")
+	}
+	return append(ops, "c15 svcclose "+c+" 0", "c15 creadopt "+c+" 0", "c15 wstop "+c+" 0")
+}
+
 // withPings inserts plain requests of other clients of the same server at random places.
 func (g *c15g) withPings(ops []string, n int) []string {
 	for i := 0; i < n; i++ {
@@ -1418,6 +1571,10 @@ func c15genCases(c *h.Ctx, yield func(*h.Case)) {
 	// seed C15r5-B: a message type (= path) with a very long name; the close frame must still be the normal one
 	emit("corpus:long-path", g.happy("l0", 2, 1))
 	emit("corpus:long-path", g.silentClient("l0", 1, 1, false, "", true))
+	// seed C15r6-A: client pings while the write loop is blocked inside a big message
+	emit("corpus:ping-while-writing", g.pingWhileWriting("b0", 5, 3072))
+	// seed C15r6-B: the client's read options are per read
+	emit("corpus:client-read-options", g.readOptions("m0", 2500, 1))
 	emit("corpus:nil-stop-channel", g.nilStop("s0", 1, 1, 0, "service", true))
 	emit("corpus:nil-stop-channel", g.nilStop("s0", 2, 2, 1, "drop", true))
 	emit("corpus:nil-stop-channel", g.nilStop("s0", 1, 1, 2, "garbage", true))
@@ -1454,6 +1611,10 @@ func c15genCases(c *h.Ctx, yield func(*h.Case)) {
 		emit("bad-first", g.badFirst("s0", []string{"garbage", "failing", "unregistered", "panics", "panicerr", "panicidx"}[r.Intn(6)]))
 		if it%3 == 1 {
 			emit("long-path", g.happy("l0", r.Intn(6), 1+r.Intn(3)))
+		}
+		if it%25 == 2 {
+			emit("ping-while-writing", g.pingWhileWriting("b0", 5+r.Intn(3), 2048+r.Intn(3)*1024))
+			emit("client-read-options", g.readOptions("m0", 1500+r.Intn(1500), 1+r.Intn(2)))
 		}
 		if it%2 == 0 {
 			emit("nil-stop", g.withPings(g.nilStop("s0", r.Intn(5), 1+r.Intn(3), r.Intn(3),
